@@ -13,15 +13,20 @@ META = {
                   "(Dev = {}: lib.rs after fix commits 872df55 d1f6866 def3ee6, wow-mpq 20d617c) exhaustively in small scope (quick: 2 threads x 2 calls over the lock-relevant functions and 1 thread x 2 calls over all 23 call kinds; "
                   "thorough adds 1 x 3, 3 threads x 1 call, and 2 x 2 over all functions; handles range over NULL / valid / closed / other-table / never-issued): deadlock freedom (TLC deadlock check), "
                   "no wait cycle, CloseInvalidatesOwn, cursor in 0..len, unique ids; and checks that each named deviation (the code before each fix commit: CloseSplit, "
-                  "NoFindPurge, FindLate, FindNextNested, VerifyRelock, ProbeForever, HasFileStale; and the lock-order mutant CloseFileNested) "
+                  "NoFindPurge, FindLate, FindNextNested, VerifyRelock, ProbeForever, HasFileStale; and the mutants CloseFileNested, GetInfoNested, OpenFileGap) "
                   "is refuted with a counterexample. Stage B: TLC emits every single call x handle class x buffer/offset class after a fixed setup history, "
                   "forged handles derived from live ones (upper-bit aliases etc.) on every entry point, archived names of 259/260/261/1024 bytes, "
+                  "search masks x interleaved listings, cross-archive frame histories (every mutating call on one archive, probes of the handles of "
+                  "two others holding same-named files), a lock-trace family (every function x handle class with the held locks probed at each "
+                  "verif_sync point), "
                   "close-then-any-call pairs, cursor-observer pairs, id-allocation chains after a close, three-archive close histories, multi-sector "
                   "(9000-byte) read/seek histories, sampled pairs, simulated single-thread histories (<= 5 calls) and 2-thread programs, plus the "
                   "counterexample schedules (replayed turn by turn through the verif_sync hook). "
                   "Stage C: the real extern \"C\" functions are driven with canary-guarded buffers in a child process (hang / abort = data). "
                   "Stage D: TLC searches, for every recorded Inv/Ret history, an execution of the machine (Dev = {}) that explains it "
-                  "(linearisation search); contents, sizes, names, existence are compared with what the Rust API reported.",
+                  "(linearisation search); contents, sizes, names, existence are compared with what the Rust API reported; canaries intact, C strings "
+                  "NUL-terminated inside their arrays, and the observed per-call lock trace (lock requested + locks held at each acquisition) must "
+                  "EQUAL the one the spec's actions produce (LockHeldAcross) and respect the lock order (LockOrderRespected).",
     "level_note": "No memory-safety proof: canaries, crash isolation and the watchdog are testing aids. TLC counterexample schedules are "
                   "replayed exactly through the verif_sync hook (without the hook: start order + an SFileEnumFiles-callback gate on ARCHIVES); "
                   "simulated 2-thread programs run free. File contents are explicit byte sequences (<= 40 bytes, plus one 9000-byte multi-sector "
@@ -48,6 +53,7 @@ DEVS = {
     "FindNextNested": "NoWaitCycle",
     "ProbeForever": "NoHang",
     "HasFileStale": "ExistenceAgrees",
+    "OpenFileGap": "CloseInvalidatesOwn",   # seeded/C19-s9: ARCHIVES dropped between the lookup and the insert into FILES
     "GetInfoNested": "NoWaitCycle",        # seeded/C19-s4: FILES kept while ARCHIVES is looked up in SFileGetFileInfo
     "CloseFileNested": "NoWaitCycle",      # lock-order mutant (selftest/C19/mutant-6.diff): FILES -> ARCH against ARCH -> FILES
 }
@@ -146,6 +152,13 @@ def _sig_fn(trace_recs):
             nm = fname.get(inv["h"], "") if inv else ""
             s["longname"] = nm.startswith("n") and nm[1:].isdigit() and int(nm[1:]) >= 260
             return s
+        if rec.get("lt") and rec.get("st") == "ok":
+            # lock-trace family: always show the observed lock trace of the rejected call
+            s["locks"] = "/".join(x["l"] + ("<" + "+".join(x["held"]) if x["held"] else "") for x in rec.get("locks", []))
+        if "lockheld" in s["why"]:
+            s["cls"] = "lock_trace_differs"  # the locks held at the call's acquisitions differ from the spec's lock trace
+            s["locks"] = "/".join(x["l"] + ("<" + "+".join(x["held"]) if x["held"] else "") for x in rec.get("locks", []))
+            return s
         if "lockorder" in s["why"]:
             s["cls"] = "lock_order"          # a lock requested while a lock that must come after it was held
             s["locks"] = "/".join(x["l"] + ("<" + "+".join(x["held"]) if x["held"] else "") for x in rec.get("locks", []))
@@ -202,6 +215,10 @@ def _sig_fn(trace_recs):
 
 def run(ctx, cases_override=None):
     quick = not ctx.thorough
+    try:
+        hooked = "pub fn verif_set_sync" in open(os.path.join(core.repo_root(), "ffi/storm-ffi/src/lib.rs")).read()
+    except OSError:
+        hooked = False
     # ---------------------------------------------------------------- stage A (parallel with the build)
     ex = cf.ThreadPoolExecutor(max_workers=8)
     fut_build = ex.submit(ctx.build, "c19")
@@ -233,7 +250,9 @@ def run(ctx, cases_override=None):
             n = {0: 0, 2: 2, 3: 4, 4: 5}.get(c.pop("preopen"), 5)      # table sizes -> length of the setup history
             c["setup"] = setup5[:n]
             c["disk"] = disk
-            reps = 1 if c["kind"] == "seq" else (6 if quick else 25)  # racy schedules are repeated (no hook: best effort)
+            # with the verif_sync hook the schedule is replayed turn by turn (deterministic): few repetitions;
+            # without it the threads are only steered (start order + ARCHIVES gate): best effort, more repetitions
+            reps = 1 if c["kind"] == "seq" else ((2 if quick else 5) if hooked else (6 if quick else 25))
             for r in range(reps):
                 allc.append(dict(c, rep=r))
         # bound the number of histories that hang on the unchanged tree (each costs one watchdog period)
@@ -295,7 +314,7 @@ def run(ctx, cases_override=None):
         "rule": "one case = one TLC-generated call history (or set of thread programs) replayed on the real C API and validated by TLC as one "
                 "trace; every case is non-trivial: it has a non-empty setup history (open archive(s), open file, open search) followed by the "
                 "generated calls; families are counted in cases_by_kind (single, pair, closepair, cursorpair, allocchain, threearch, forged, "
-                "longname, lockorder, big, fill, sim, cex:<deviation>)",
+                "longname, mask, xarch, lockorder, big, fill, sim, cex:<deviation>)",
         "exhaustive": False,
         "calls_by_function": fns, "results_by_status": sts, "cases_by_kind": kinds,
     }
